@@ -369,7 +369,7 @@ int main(int argc, char **argv) {
                      fnum(tb.xi).c_str(), fnum(tb.yi).c_str(), fnum(tb.xa).c_str(), fnum(tb.ya).c_str(), fnum(ts.si).c_str(), fnum(ts.di).c_str(), fnum(ts.sa).c_str(), fnum(ts.da).c_str());
             out += t5;
             unsigned ng = nb->gid(); int nsub = gc.numSubBounds(ng);
-            if (getenv("VERIF_COLLDEBUG")) for (int i = 0; i < 4; i++) { out += " Z" + std::to_string(i) + "[" + fnum(sc._ranges[i]._pos) + "," + fnum(sc._ranges[i]._posm) + "]"; for (Zones::const_iterator e = sc._ranges[i].begin(); e != sc._ranges[i].end(); ++e) out += "(" + fnum(e->x) + "," + fnum(e->xm) + ")"; }
+            for (int i = 0; i < 4; i++) { out += " Z" + std::to_string(i) + "[" + fnum(sc._ranges[i]._pos) + "," + fnum(sc._ranges[i]._posm) + "]"; for (Zones::const_iterator e = sc._ranges[i].begin(); e != sc._ranges[i].end(); ++e) out += "(" + fnum(e->x) + "," + fnum(e->xm) + ")"; }
             out += " nsub=" + std::to_string(nsub);
             for (int j = -1; j < nsub; j++) {                                        // the main octabox first, then the sub-boxes (which stand for the glyph when it has any)
                 const BBox &b = j < 0 ? gc.getBoundingBBox(ng) : gc.getSubBoundingBBox(ng, (uint8)j); const SlantBox &sb = j < 0 ? gc.getBoundingSlantBox(ng) : gc.getSubBoundingSlantBox(ng, (uint8)j);
